@@ -6,6 +6,7 @@ import (
 	"fmt"
 	"math/rand"
 	"os"
+	"reflect"
 	"regexp"
 	"regexp/syntax"
 	"sort"
@@ -469,6 +470,27 @@ func makerByName(n string) lexerMaker {
 	return runtimeMaker
 }
 
+// stableNew builds the definition several times: lexer.New is a function of the rule set (whatever order the states are
+// visited in), so every build has the same symbol table and the same rules per state; otherwise no definition is returned.
+func stableNew(rules lexer.Rules) (*lexer.StatefulDefinition, string) {
+	first, v := safeNew(rules)
+	if first == nil {
+		return nil, v
+	}
+	want, _ := json.Marshal(first)
+	for i := 0; i < 7; i++ {
+		d, _ := safeNew(rules)
+		if d == nil {
+			return nil, "unstable: lexer.New fails on some builds of the same rule set"
+		}
+		got, _ := json.Marshal(d)
+		if !reflect.DeepEqual(d.Symbols(), first.Symbols()) || string(got) != string(want) {
+			return nil, "unstable: lexer.New gives different definitions for the same rule set"
+		}
+	}
+	return first, v
+}
+
 func simpleMaker(c *rawCase) (lexer.Definition, string) {
 	if len(c.Rules) != 1 {
 		return nil, "not a one-state map"
@@ -512,7 +534,7 @@ func jsonDefMaker(c *rawCase) (lexer.Definition, string) {
 	if err := json.Unmarshal(b, &rules); err != nil {
 		return nil, "unmarshal: " + err.Error()
 	}
-	d2, v := safeNew(rules)
+	d2, v := stableNew(rules)
 	if d2 == nil {
 		return nil, "rebuilt: " + v
 	}
@@ -532,7 +554,7 @@ func jsonSourceMaker(c *rawCase) (lexer.Definition, string) {
 	if err := json.Unmarshal(b, &rules); err != nil {
 		return nil, "unmarshal: " + err.Error()
 	}
-	d2, v := safeNew(rules)
+	d2, v := stableNew(rules)
 	if d2 == nil {
 		return nil, "rebuilt: " + v
 	}
@@ -562,7 +584,7 @@ func jsonRulesMaker(c *rawCase) (lexer.Definition, string) {
 	if err := json.Unmarshal(b, &rules); err != nil {
 		return nil, "unmarshal: " + err.Error()
 	}
-	d2, v := safeNew(rules)
+	d2, v := stableNew(rules)
 	if d2 == nil {
 		return nil, "rebuilt: " + v
 	}
